@@ -55,10 +55,17 @@ def _init_worker(configs, variants, sd, level="retry"):
 def _run(level, cfg, events, var, perm):
     if level == "policy":
         from . import policyenv
-        return policyenv.run_policy_scenario(cfg, events, entry=var["entry"], perm=perm,
+        obs = policyenv.run_policy_scenario(cfg, events, entry=var["entry"], perm=perm,
                                              place=var.get("place", "call"),
                                              async_callbacks=var.get("async_callbacks", False),
-                                             flavours=var.get("flavours"))
+                                             flavours=var.get("flavours"),
+                                             sugar_retry=var.get("sugar_retry", False))
+        if var.get("sugar_retry"):
+            # the sugar object is a policy itself: in call() it classifies the raised exception once
+            # for its own (absent) breaker before the outer policy does
+            obs = [e for i, e in enumerate(obs)
+                   if not (e["e"] == "classify" and i + 1 < len(obs) and obs[i + 1] == e)]
+        return obs
     obs = retryenv.run_scenario(cfg, events, entry=var["entry"], perm=perm,
                                  place=var.get("place", "call"),
                                  async_callbacks=var.get("async_callbacks", False),
